@@ -63,13 +63,13 @@ theorem getLast?_mem : ∀ (l : List (K × K)) (bl : K × K), l.getLast? = some 
 /-! ## the trapezoid on one segment -/
 
 theorem seg_shift (a S vi fi vj fj x : K) : seg (a + S) vi fi vj fj x = seg S vi fi vj fj x + a := by
-  unfold seg; ring
+  unfold seg Gen.DistogramExpr.countInteriorResult Gen.DistogramExpr.countMb; ring
 
 theorem seg_left (S vi fi vj fj : K) : seg S vi fi vj fj vi = S + fi / 2 := by
-  unfold seg; simp
+  unfold seg Gen.DistogramExpr.countInteriorResult Gen.DistogramExpr.countMb; simp
 
 theorem seg_right (S vi fi vj fj : K) (h : vi < vj) : seg S vi fi vj fj vj = S + fi + fj / 2 := by
-  unfold seg
+  unfold seg Gen.DistogramExpr.countInteriorResult Gen.DistogramExpr.countMb
   have : vj - vi ≠ 0 := by linarith
   field_simp
   ring
@@ -82,7 +82,7 @@ theorem seg_mono (S vi fi vj fj x y : K) (h : vi < vj) (hfi : 0 < fi) (hfj : 0 <
   have key : seg S vi fi vj fj y - seg S vi fi vj fj x
       = (y - x) * ((2 * (vj - vi) - (x - vi) - (y - vi)) * fi + ((x - vi) + (y - vi)) * fj)
         / (2 * (vj - vi) ^ 2) := by
-    unfold seg
+    unfold seg Gen.DistogramExpr.countInteriorResult Gen.DistogramExpr.countMb
     field_simp
     ring
   have hnum : 0 ≤ (y - x) * ((2 * (vj - vi) - (x - vi) - (y - vi)) * fi + ((x - vi) + (y - vi)) * fj) := by
